@@ -23,12 +23,12 @@ import (
 )
 
 type boardStats struct {
-	FollowerReads, ConcurrentReads, ContentsCompared                          int
-	Ops, Histories, Sends, Reads, MaxWriters, DistinctSizes, ProcessHistories int
-	OutcomeHist                                                               map[string]int
-	Monitors                                                                  []string
-	Samples                                                                   []string
-	SizeClasses                                                               map[string]int
+	FollowerReads, ConcurrentReads, ContentsCompared                                                int
+	Ops, Histories, Sends, Reads, MaxWriters, DistinctSizes, ProcessHistories, DefaultLockHistories int
+	OutcomeHist                                                                                     map[string]int
+	Monitors                                                                                        []string
+	Samples                                                                                         []string
+	SizeClasses                                                                                     map[string]int
 }
 
 // msgOfLineLen builds a message whose stored JSON line has exactly `target` bytes (for the
@@ -137,8 +137,33 @@ func readBoard(path string) ([]fileEntry, error) {
 	return out, nil
 }
 
+// openBoard: with the lock file named, or - lock "" - as a node started without one does (the storage's default lock)
+func openBoard(path, lock string) (storage.Storage, error) {
+	if lock == "" {
+		return file_storage.NewFileStorage(path)
+	}
+	return file_storage.NewFileStorage(path, lock)
+}
+
+// spellings of one file: the writers of a board do not have to agree on how they write its path
+func spelling(path string, w int) string {
+	dir, base := filepath.Dir(path), filepath.Base(path)
+	switch w % 4 {
+	case 1:
+		return dir + "/./" + base
+	case 2:
+		return dir + "/../" + filepath.Base(dir) + "/" + base
+	case 3:
+		os.Symlink(dir, dir+"-link")
+		if _, err := os.Stat(dir + "-link"); err == nil {
+			return filepath.Join(dir+"-link", base)
+		}
+	}
+	return path
+}
+
 func runBoardWriter(path, lock string, w int, sizes []int) error {
-	fs, err := file_storage.NewFileStorage(path, lock)
+	fs, err := openBoard(path, lock)
 	if err != nil {
 		return err
 	}
@@ -195,12 +220,31 @@ func runBoardDiff(outDir string, seed int64, tier string) {
 			st.MaxWriters = writers
 		}
 		useProcs := h%4 == 3
+		// every third history: nobody names a lock file (as dc4bc_d does), at least two writers, and each writes the path of
+		// the board in its own way
+		defaultLock := h%3 == 2
+		if defaultLock {
+			lock = ""
+			if writers < 2 {
+				writers = 2 + rng.Intn(3)
+			}
+			st.DefaultLockHistories++
+		}
 		plan := make([][]int, writers)
 		total := 0
 		for w := range plan {
 			n := 2 + rng.Intn(5)
+			if defaultLock {
+				// many short messages from each: what is looked for is two writers inside "count the lines, append" at once
+				n = 40 + rng.Intn(40)
+			}
 			for k := 0; k < n; k++ {
 				var sz int
+				if defaultLock {
+					plan[w] = append(plan[w], 100+rng.Intn(400))
+					total++
+					continue
+				}
 				switch rng.Intn(5) {
 				case 0, 1:
 					sz = 100 + rng.Intn(3000)
@@ -236,7 +280,7 @@ func runBoardDiff(outDir string, seed int64, tier string) {
 				defer rwg.Done()
 				var kept storage.Storage
 				if rd == 0 {
-					if ks, err := file_storage.NewFileStorage(path, lock); err == nil {
+					if ks, err := openBoard(path, lock); err == nil {
 						kept = ks
 						defer kept.Close()
 					}
@@ -252,7 +296,7 @@ func runBoardDiff(outDir string, seed int64, tier string) {
 					var err error
 					if kept != nil {
 						msgs, err = kept.GetMessages(uint64(from))
-					} else if fs, e := file_storage.NewFileStorage(path, lock); e == nil {
+					} else if fs, e := openBoard(path, lock); e == nil {
 						msgs, err = fs.GetMessages(uint64(from))
 						fs.Close()
 					} else {
@@ -283,8 +327,16 @@ func runBoardDiff(outDir string, seed int64, tier string) {
 			wg.Add(1)
 			go func(w int) {
 				defer wg.Done()
+				wpath := path
+				if defaultLock {
+					wpath = spelling(path, w)
+				}
 				if useProcs {
-					args := []string{"boardwriter", path, lock, fmt.Sprint(w)}
+					lk := lock
+					if lk == "" {
+						lk = "-"
+					}
+					args := []string{"boardwriter", wpath, lk, fmt.Sprint(w)}
 					for _, s := range plan[w] {
 						args = append(args, fmt.Sprint(s))
 					}
@@ -293,7 +345,7 @@ func runBoardDiff(outDir string, seed int64, tier string) {
 						errs[w] = fmt.Errorf("%v: %s", err, out)
 					}
 				} else {
-					errs[w] = runBoardWriter(path, lock, w, plan[w])
+					errs[w] = runBoardWriter(wpath, lock, w, plan[w])
 				}
 			}(w)
 		}
@@ -333,6 +385,8 @@ func runBoardDiff(outDir string, seed int64, tier string) {
 		if err != nil {
 			st.Monitors = append(st.Monitors, fmt.Sprintf("C16 unreadable_file: history %d: %v", h, err))
 			os.RemoveAll(dir)
+			os.Remove(dir + "-link")
+			os.Remove(dir + "-link")
 			continue
 		}
 		emit("reset", "reset")
@@ -377,7 +431,7 @@ func runBoardDiff(outDir string, seed int64, tier string) {
 					ignOffs = append(ignOffs, fmt.Sprint(rng.Intn(len(entries)+1)))
 				}
 			}
-			fs, err := file_storage.NewFileStorage(path, lock)
+			fs, err := openBoard(path, lock)
 			if err != nil {
 				continue
 			}
@@ -529,6 +583,8 @@ func runBoardDiff(outDir string, seed int64, tier string) {
 			}
 		}()
 		os.RemoveAll(dir)
+		os.Remove(dir + "-link")
+		os.Remove(dir + "-link")
 	}
 	st.DistinctSizes = len(distinct)
 	ops.Flush()
